@@ -322,6 +322,28 @@ func (ch c07) Run(c *core.Ctx) {
 		account(h, run)
 		c.Count("long_histories", 1)
 	}
+	// more than a thousand Close messages on one connection, each followed by a use of the name it closed: the
+	// 1024th Close (the 2048th ...) makes a name as unresolvable as the first one did
+	if c.Batch == 1%nb && c.Begin(3500000) && c.NViol() < 10 {
+		pfx := fmt.Sprintf("K%d", c.Batch)
+		keepID := pfx + ".keep"
+		h := []xMsg{{K: "parse", Name: "a", Query: "P " + keepID, Prog: xProg(keepID, 3)}, {K: "sync"}}
+		ncl := 1060
+		if c.Tier == "thorough" {
+			ncl = 2100
+		}
+		for k := 0; k < ncl; k++ {
+			id := fmt.Sprintf("%s.c%d", pfx, k)
+			p := [][]byte{[]byte(fmt.Sprintf("%s-bind%d", pfx, k)), []byte("5")}
+			h = append(h, xMsg{K: "parse", Name: "b", Query: "P " + id, Prog: xProg(id, 3)}, xMsg{K: "closeS", Name: "b"},
+				xMsg{K: "bind", Portal: "b", Name: "b", BindID: 5000 + k, Params: p}, xMsg{K: "sync"},
+				xMsg{K: "bind", Portal: "b", Name: "a", BindID: 7000 + k, Params: p}, xMsg{K: "closeP", Portal: "b"},
+				xMsg{K: "exec", Portal: "b"}, xMsg{K: "sync"})
+		}
+		_, run := judgeHistory(c, env, h, map[string]any{"history": fmt.Sprintf("%d statement and %d portal Close messages on one connection, each name used right after it was closed", ncl, ncl)}, "C07")
+		account(h, run)
+		c.Count("closes_on_one_connection_each_followed_by_a_use", int64(2*ncl))
+	}
 	// concurrent groups: same names on several connections of one server
 	for g := c.Batch; g < ngroups; g += nb {
 		idx = 2000000 + g
